@@ -301,17 +301,68 @@ def exec_history(case, ops, per_step=None):
                 if stop: return recs, stop
     return recs, None
 
+HP = 2305843009213693951
+HB = 1000003
+ECODE = {None: 0, 'EIndex': 1, 'EValue': 2, 'EType': 3, 'ERuntime': 4, 'EOther': 5}
+def hmix(h, x): return (h * HB + x + 1) % HP
+def hopt(h, o): return hmix(h, 0 if o is None else o + 1)
+def hash_slots(h, l):
+    h = hmix(h, len(l))
+    for r, i, k, s in l:
+        h = hopt(hopt(hmix(hmix(h, 1 if r else 0), i), k), s)
+    return h
+def hash_obs(h, o):
+    h = hmix(h, len(o['units']))
+    for ins, outs in o['units']:
+        h = hash_slots(hash_slots(h, ins), outs)
+    h = hmix(h, len(o['streams']))
+    for k, s in o['streams']:
+        h = hopt(hopt(h, k), s)
+    return h
+def hstep(h, cmp, rec):
+    h = hmix(hmix(h, ECODE.get(rec['err'], 9)), (1 if rec['pre'] else 0) if cmp else 2)
+    return hash_obs(h, rec['obs'])
+
+INEXACT = lambda op: op[0] in ('udisc', 'uinsert') or (op[0] == 'repl' and op[2] is None)
+
+def histories_of(case):
+    if 'histories' in case:
+        return case['histories']
+    A = case['alphabet']
+    return [case['prefix'] + [A[i] for i in seq] for seq in itertools.product(range(len(A)), repeat=case['depth'])]
+
 def run_impl(case):
+    n0 = len(case['units'])
+    if 'histories' not in case:      # exhaustive: sum of the checksums of every sequence over the alphabet
+        npre = n0 + len(case['prefix'])
+        total, errs, changed = 0, {}, 0
+        for ops in histories_of(case):
+            recs, _ = exec_history(case, ops)
+            h = hash_obs(0, recs[npre - 1]['obs'])
+            for op, r in zip(ops[len(case['prefix']):], recs[npre:]):
+                h = hstep(h, not INEXACT(op), r)
+                key = f'op:{op[0]}:{"raise:" + r["err"] if r["err"] else "ok"}:{"pre" if r["pre"] else "nopre"}'
+                errs[key] = errs.get(key, 0) + 1
+            if recs[-1]['obs'] != recs[npre - 1]['obs']: changed += 1
+            total = (total + h) % HP
+        return {'sum': str(total), 'n': len(A_of(case)) ** case['depth'], 'tags': errs, 'changed': changed}
     out = {'h': []}
     for ops in case['histories']:
         recs, _ = exec_history(case, ops)
         inpre = True
-        for r in recs:
+        cmps = []
+        h = hash_obs(0, recs[n0 - 1]['obs'])
+        for r in recs[n0:]:
             # flags of sufficient-only conditions are compared only while the history is inside the preconditions
-            r['cmp'] = r['pre'] if (r['exact'] or (inpre and r['pre'])) else None
+            cmp = bool(r['exact'] or (inpre and r['pre']))
             inpre = inpre and r['pre']
-        out['h'].append(recs)
+            cmps.append(cmp)
+            h = hstep(h, cmp, r)
+        out['h'].append({'hash': str(h), 'cmps': cmps, 'errs': [r['err'] for r in recs[n0:]], 'pres': [r['pre'] for r in recs[n0:]],
+                         'final': recs[-1]['obs'], 'changed': any(a['obs'] != b['obs'] for a, b in zip(recs[n0 - 1:], recs[n0:]))})
     return out
+
+def A_of(case): return case['alphabet']
 
 # ------------------------------------------------------------------ model side
 def cz(i): return f'({int(i)})%Z'
@@ -357,42 +408,38 @@ def cobs(o):
     units = clist(o['units'], lambda r: f'({clist(r[0], cslot)}, {clist(r[1], cslot)})')
     streams = clist(o['streams'], lambda p: f'({copt(p[0])}, {copt(p[1])})')
     return f'({units}, {streams})'
-def crec(r):
-    err = r['err']
-    if err is not None and err.startswith('EDim'): err = 'EDim'
-    return f'({copt(err)}, {copt(r["cmp"], cbool)}, {cobs(r["obs"])})'
 
 STEP = 'step_found'     # 'step_found' = the tree before pending_fixes/C18_1_pop_undock.diff
 
 def coq_case(case, out):
-    n0 = len(case['units'])
-    terms = [f'obs_eqb (observe w0) {cobs(out["h"][0][n0 - 1]["obs"])}'] if out['h'] else ['true']
-    for ops, recs in zip(case['histories'], out['h']):
-        terms.append(f'check_run {STEP} w0 {clist(ops, cop)} {clist(recs[n0:], crec)}')
-    return f'(let w0 := run (empty_world {case["ns"]}) {clist(setup_ops(case), cop)} in ' + ' && '.join(terms) + ')'
+    w0 = f'run (empty_world {case["ns"]}) {clist(setup_ops(case), cop)}'
+    if 'histories' not in case:
+        return (f'(check_enum {STEP} (run ({w0}) {clist(case["prefix"], cop)}) {clist(case["alphabet"], cop)} '
+                f'{case["depth"]} ({out["sum"]})%Z)')
+    terms = [f'check_hist {STEP} w0 {clist(ops, cop)} {clist(r["cmps"], cbool)} ({r["hash"]})%Z {cobs(r["final"])}'
+             for ops, r in zip(case['histories'], out['h'])]
+    return f'(let w0 := {w0} in ' + (' && '.join(terms) if terms else 'true') + ')'
 
 def coq_show(case, out):
-    return (f'(trace {STEP} (run (empty_world {case["ns"]}) {clist(setup_ops(case), cop)}) '
-            f'{clist(case["histories"][0], cop)})')
+    ops = histories_of(case)[0]
+    return f'(trace {STEP} (run (empty_world {case["ns"]}) {clist(setup_ops(case), cop)}) {clist(ops, cop)})'
 
 def nontrivial(case, out):
-    for recs in out.get('h', []):
-        n0 = len(case['units'])
-        for a, b in zip(recs[n0 - 1:], recs[n0:]):
-            if a['obs'] != b['obs']: return True
-    return False
+    if 'histories' not in case:
+        return out.get('changed', 0) > 0
+    return any(r['changed'] for r in out.get('h', []))
 
 def classify(case, out):
     ks = ['kind:' + case.get('kind', 'random')]
-    n0 = len(case['units'])
-    for ops, recs in zip(case['histories'], out.get('h', [])):
+    if 'histories' not in case:
+        ks.append(f'exhaustive:sequences:{out.get("n")}')
+        return ks + [k for k in out.get('tags', {})]
+    for ops, r in zip(case['histories'], out.get('h', [])):
         ks.append('len:%02d-%02d' % (len(ops) // 10 * 10, len(ops) // 10 * 10 + 9))
-        inpre = True
-        for op, r in zip(ops, recs[n0:]):
+        for op, e, p in zip(ops, r['errs'], r['pres']):
             tag = op[0] + (':' + op[-1] if op[0] in ('set', 'slice') else '')
-            ks.append(f'op:{tag}:{"raise:" + r["err"] if r["err"] else "ok"}:{"pre" if r["pre"] else "nopre"}')
-            inpre = inpre and r['pre']
-        ks.append('history:' + ('within-preconditions' if inpre else 'leaves-preconditions'))
+            ks.append(f'op:{tag}:{"raise:" + e if e else "ok"}:{"pre" if p else "nopre"}')
+        ks.append('history:' + ('within-preconditions' if all(r['pres']) else 'leaves-preconditions'))
     return ks
 
 # ------------------------------------------------------------------ direct oracle: the property on the real objects
@@ -424,7 +471,7 @@ def invariant(U):
     return None
 
 def oracle(case):
-    for h, ops in enumerate(case['histories']):
+    for h, ops in enumerate(histories_of(case)):
         state = {'inpre': True, 'n': 0}
         n0 = len(case['units'])
         def per_step(U, op, rec):
@@ -442,8 +489,8 @@ def oracle(case):
 
 def shrink(case):
     """keep the first failing history and delete operations while the oracle still fails"""
-    for ops in case['histories']:
-        c = dict(case, histories=[list(ops)])
+    for ops in histories_of(case):
+        c = {'kind': 'shrunk', 'units': case['units'], 'ns': case['ns'], 'histories': [list(ops)]}
         if oracle(c):
             break
     else:
@@ -640,15 +687,11 @@ def alphabet(units, ns):
 
 EXH_UNITS = [[1, 1, True, True], [2, 1, False, True], [2, 2, True, False]]
 
-def exhaustive_cases(rng, depth, nprefix, chunk=150):
-    A = alphabet(EXH_UNITS, 5)
-    cases = []
-    prefixes = [[]] + [gen_history(rng, EXH_UNITS, 5, rng.randint(3, 8), 1.0) for _ in range(nprefix)]
-    for p in prefixes:
-        hs = [p + [A[i] for i in seq] for seq in itertools.product(range(len(A)), repeat=depth)]
-        for k in range(0, len(hs), chunk):
-            cases.append({'kind': f'exhaustive-depth{depth}', 'units': EXH_UNITS, 'ns': 5, 'histories': hs[k:k + chunk]})
-    return cases
+def exhaustive_cases(rng, depth, nprefix, A=None, empty_prefix=True):
+    A = A or alphabet(EXH_UNITS, 5)
+    prefixes = ([[]] if empty_prefix else []) + [gen_history(rng, EXH_UNITS, 5, rng.randint(3, 8), 1.0) for _ in range(nprefix)]
+    return [{'kind': f'exhaustive-depth{depth}', 'units': EXH_UNITS, 'ns': 5, 'prefix': p, 'alphabet': A, 'depth': depth}
+            for p in prefixes]
 
 def gen_cases(rng, tier):
     env()
@@ -660,10 +703,12 @@ def gen_cases(rng, tier):
         nops = rng.randint(5, 50)
         p_valid = rng.choice([1.0, 1.0, 0.9, 0.8, 0.8, 0.5])
         cases.append({'kind': 'random', 'units': units, 'ns': ns, 'histories': [gen_history(rng, units, ns, nops, p_valid)]})
+    A = alphabet(EXH_UNITS, 5)
+    small = A[::3]
     if tier == 'quick':
-        cases += exhaustive_cases(rng, 1, 6) + exhaustive_cases(rng, 2, 0)
+        cases += exhaustive_cases(rng, 1, 8) + exhaustive_cases(rng, 2, 1, small)
     else:
-        cases += exhaustive_cases(rng, 1, 30) + exhaustive_cases(rng, 2, 6) + exhaustive_cases(rng, 3, 0, chunk=400)
+        cases += exhaustive_cases(rng, 1, 40) + exhaustive_cases(rng, 2, 6) + exhaustive_cases(rng, 3, 2, small)
     return cases
 
 def search_cases(rng, tier):
